@@ -1137,10 +1137,13 @@ class n0dict(n0dict_):
                     _not_found_xpath_list = n0dict._find(self, xpath_found_str, self, return_lists)
                 # cur_value is the node to extend: parent_node[node_name_index] would fail for a list that is
                 # an element of a plain list (node_name_index is '[i]', which only an n0list understands)
-                if not isinstance(cur_value, (list, tuple)):
-                    parent_node[node_name_index] = n0list([parent_node[node_name_index]])
-                    cur_value = parent_node[node_name_index]
-                return cur_value, None, None, xpath_found_str, ["[new()]"] + xpath_list[1:]
+                if isinstance(cur_value, (list, tuple)):
+                    return cur_value, None, None, xpath_found_str, ["[new()]"] + xpath_list[1:]
+                # A single value becomes a list only when something is really added to it: the search changes nothing,
+                # it reports 'name[new()]' as not found under the parent and _add() converts the value for d[xpath] = v
+                if not isinstance(parent_node, dict) or node_name_index is None:
+                    raise IndexError(f"new() is possible only for the list or for the value of the key, but not for '{xpath_found_str}'")
+                return parent_node, None, None, xpath_found_str, [f"{node_name_index}[new()]"] + xpath_list[1:]
             # ..................................................................
             # Try to check all [*] items in the loop
             # ..................................................................
@@ -1306,10 +1309,15 @@ class n0dict(n0dict_):
                         next_node_name_index = next_node_name
                 else:
                     # Node is EXISTED
-                    if next_node_index:
-                        parent_node.update({next_node_name: [parent_node[next_node_name]]})
-                        next_node = parent_node[next_node_name]
-                        next_node_name_index = f"[{next_node_index}]"
+                    if next_node_index == "new()":
+                        # Hidden list (reported by new() in _find): the single item becomes the first item of the list
+                        # as soon as all the rest is created; item[1] == None, will be reused at the next step with last()
+                        hidden_list = n0list([parent_node[next_node_name], None])
+                        next_node, next_node_name_index = hidden_list, "[last()]"
+                        if len(xpath_list) > 1:
+                            next_node, next_node_name_index = self._add(hidden_list, "[last()]", xpath_list[1:])
+                        parent_node.update({next_node_name: hidden_list})
+                        return next_node, next_node_name_index
                     else:
                         raise IndexError(f"Nonsense! How to create already existed node '{next_node_name}'?")
             else:
